@@ -39,6 +39,9 @@ class Hooks:
             return True
         if fn.path in self.names:
             return False
+        if fn.path.startswith("preprocessing::operator_enums::") and getattr(fn, "vis", None) != "Public" and " as " not in fn.path:
+            # crate-internal classification helpers of the operator enums (`op.is_temporal()`, `op.symbol()`) are part of every layer
+            return False
         if fn.path.startswith("<") and " as " in fn.path:
             # `<Type as Trait>::method` belongs to the module of the type or of the trait, whichever is local
             ty_, tr_ = fn.path[1:].split(" as ", 1)
